@@ -365,3 +365,33 @@ func (p *Program) CanonComparisons() int {
 	}
 	return n
 }
+
+// CanonIfElse writes `if !C {A} else {B}` (no init statement, plain else block) as
+// `if C {B} else {A}` in the syntax trees the rules read: which of two alternatives is written
+// first is not behaviour.
+func (p *Program) CanonIfElse() int {
+	n := 0
+	for _, pk := range p.Roots {
+		for _, f := range pk.Syntax {
+			ast.Inspect(f, func(x ast.Node) bool {
+				ifs, ok := x.(*ast.IfStmt)
+				if !ok || ifs.Init != nil || ifs.Else == nil {
+					return true
+				}
+				eb, ok := ifs.Else.(*ast.BlockStmt)
+				if !ok {
+					return true
+				}
+				u, ok := ast.Unparen(ifs.Cond).(*ast.UnaryExpr)
+				if !ok || u.Op != token.NOT {
+					return true
+				}
+				ifs.Cond = ast.Unparen(u.X)
+				ifs.Body, ifs.Else = eb, ifs.Body
+				n++
+				return true
+			})
+		}
+	}
+	return n
+}
